@@ -188,7 +188,25 @@ def tables_c05(out, notes):
     if probe.render()["groups"] != rendered:
         raise Refuse("RapidProContainer.validate: a second render lists the groups differently")
     out.append(f"Definition validate_keeps_group_attrs : bool := {coq_bool(keeps)}.")
-    notes.append(f"C05: probes fieldref_renders_own_type={own_type} validate_keeps_group_attrs={keeps}")
+
+    shared = {"uuid": "n1", "actions": [], "exits": [{"uuid": "e1", "destination_uuid": None}, {"uuid": "e2", "destination_uuid": None}],
+              "router": {"type": "switch", "operand": "@input.text", "cases": [], "default_category_uuid": "c3",
+                         "categories": [{"uuid": "c1", "name": "A", "exit_uuid": "e1"}, {"uuid": "c2", "name": "B", "exit_uuid": "e2"},
+                                        {"uuid": "c3", "name": "Other", "exit_uuid": "e1"}]}}
+    ex = [e.get("uuid") for e in N.BaseNode.from_dict(shared).render()["exits"]]
+    if ex == ["e1", "e2"]:
+        once = True       # each exit once, at the place of its first category
+    elif ex == ["e1", "e2", "e1"]:
+        once = False      # one entry per category
+    else:
+        raise Refuse(f"a router node whose categories share an exit renders its exits as {ex!r}: a behaviour the C05 model has no mirror for")
+    rnd = dict(shared, router={"type": "random", "categories": shared["router"]["categories"]})
+    ex2 = [e.get("uuid") for e in N.BaseNode.from_dict(rnd).render()["exits"]]
+    if ex2 != ex:
+        raise Refuse(f"random and switch routers list shared exits differently: {ex2!r} vs {ex!r}")
+    out.append(f"Definition router_lists_shared_exit_once : bool := {coq_bool(once)}.")
+    notes.append(f"C05: probes fieldref_renders_own_type={own_type} validate_keeps_group_attrs={keeps} "
+                 f"router_lists_shared_exit_once={once}")
 
     # ---- set_contact_* properties
     lits = [l for l in list_literals_in(A.SetContactPropertyAction._assign_fields_from_dict)]
